@@ -128,7 +128,7 @@ impl<RS: Read + Seek> Seek for SeekableChain<RS> {
                 if offset <= 0 {
                     self.seek_abs(self.max_pos.saturating_sub(-offset as u64))
                 } else {
-                    Ok(self.max_pos)
+                    self.seek_abs(self.max_pos.saturating_add(offset as u64))
                 }
             }
         }
